@@ -170,8 +170,10 @@ class TreeGen:
 
     def k_tridiag(self, r, c, d=0):
         dt = self.dtype()
-        return {"k": "tridiag", "al": enc(self.array((r - 1, ), dt)), "be": enc(self.array((r, ), dt)),
-                "ga": enc(self.array((r - 1, ), dt))}
+        al = enc(self.array((r - 1, ), dt))
+        if self.integer(1, 4) == 1:  # symmetric (not Hermitian when complex): one array object for both bands
+            return {"k": "tridiag", "al": al, "be": enc(self.array((r, ), dt)), "ga": al, "same_band": True}
+        return {"k": "tridiag", "al": al, "be": enc(self.array((r, ), dt)), "ga": enc(self.array((r - 1, ), dt))}
 
     def k_perm(self, r, c, d=0):
         p = self.draw(st.permutations(list(range(r))))
@@ -190,7 +192,7 @@ class TreeGen:
         dim = self.integer(1, 2)
         x1 = self.array((r, dim), dt, -2, 2)
         x2 = self.array((c, dim), dt, -2, 2)
-        return {"k": "kernel", "x1": enc(x1), "x2": enc(x2), "fn": self.pick(["dot1", "dot"]),
+        return {"k": "kernel", "x1": enc(x1), "x2": enc(x2), "fn": self.pick(["dot1", "dot", "asym", "asym"]),
                 "bs1": self.integer(1, r), "bs2": self.integer(1, c)}
 
     def k_fft(self, r, c, d=0):
@@ -240,6 +242,15 @@ class TreeGen:
             ch += [self.op(a2, b2, d), self.op(r2 // a2, c2 // b2, d)]
         else:
             ch.append(self.op(r2, c2, d))
+        if a == b and len(ch) == 2 and self.integer(1, 3) == 1:
+            # nested functional Kronecker products whose flattening puts two different Diagonal factors next to each other:
+            # kron(D1, kron(D2, X)) with a non-diagonal X
+            ms = [x for x in divisors(r2) if x in divisors(c2) and x >= 1]
+            m = self.pick(ms)
+            D1 = {"k": "diag", "d": enc(self.array((a, ), self.dtype()))}
+            D2 = {"k": "diag", "d": enc(self.array((m, ), self.dtype()))}
+            X = self.k_dense(r2 // m, c2 // m)
+            return {"k": "kron", "via": "fn", "ch": [D1, {"k": "kron", "via": "fn", "ch": [D2, X]}]}
         first, last = (a, b), ((r2, c2) if len(ch) == 2 else (r2 // a2, c2 // b2))
         return self._share_last({"k": "kron", "via": self.pick(["fn", "fn", "ctor"]), "ch": ch}, same_shape=first == last)
 
